@@ -123,14 +123,14 @@ Definition k_step (st : hskip) (e : env) (o : kop) : hskip * env * kout :=
   end.
 
 Inductive kstep : Type :=
-| KOp (o : kop) (al : list achoice) (adv : list (list costep))
+| KOp (o : kop) (al : list achoice) (adv padv : list (list costep))
 | KCo (l : list costep).
 
 Definition krun_step (x : hskip * world * list event) (s : kstep) : hskip * world * list event * option kout :=
   let '(st, w, tr) := x in
   match s with
-  | KOp o al adv =>
-    let '(st', e', out) := k_step st (mkE w al adv tr) o in
+  | KOp o al adv padv =>
+    let '(st', e', out) := k_step st (mkE w al adv padv tr) o in
     (st', ew e', eev e', Some out)
   | KCo l => (st, co_run w l, tr, None)
   end.
